@@ -26,6 +26,7 @@ def run(rep: core.Report):
     _r12f(rep)
     _r12g(rep)
     _r12h(rep)
+    _r12i(rep)
     # R12a -------------------------------------------------------------
     fn = core.find_def(GV, "GroupVelocity._calculate_group_velocity_at_q")
     lam, fac = sp.Symbol("lam", positive=True), sp.Symbol("factor", positive=True)
@@ -250,6 +251,37 @@ def _r12h(rep):
             init = [x for x in cq.body if isinstance(x, ast.Assign) and core.src(x.targets[0]) == "pos"]
             ok_pos = ok_pos and len(init) == 1 and core.src(init[0].value) == "0"
     rep.instance("R12h", GV, f"{G}._calculate_group_velocity_at_q", "gv[pos : pos + len(deg)] = perturb(ddms, eigvecs[:, deg]); pos += len(deg)", ok_pos, "the velocities of a degenerate set are not stored at the positions of its bands", line=cq.lineno)
+
+
+
+def _r12i(rep):
+    """Which modes count as degenerate is a numerical tolerance of its own, not the frequency below which group velocities
+    are set to zero."""
+    rep.rule("R12i", "degenerate sets in the group-velocity calculation are found with the tolerance of degenerate_sets itself (no argument) or a literal; the user-settable frequency cutoff that switches group velocities off (self._cutoff_frequency, a constructor argument) never reaches it, so that well separated modes above the cutoff keep the gradient of their own frequency", 1)
+    GVF = "phonopy/phonon/group_velocity.py"
+    cls = core.find_def(GVF, "GroupVelocity")
+    init = [m for m in cls.body if isinstance(m, ast.FunctionDef) and m.name == "__init__"]
+    user = set()
+    if init:
+        params = {a.arg for a in init[0].args.args + init[0].args.kwonlyargs}
+        for st in ast.walk(init[0]):
+            if isinstance(st, ast.Assign) and isinstance(st.targets[0], ast.Attribute) and {n.id for n in ast.walk(st.value) if isinstance(n, ast.Name)} & params:
+                user.add(core.src(st.targets[0]))
+    calls = [c for c in ast.walk(cls) if isinstance(c, ast.Call) and core.src(c.func).split(".")[-1] in ("degenerate_sets", "get_degenerate_sets")]
+    if not calls:
+        raise AnalysisError("R12i: GroupVelocity no longer calls degenerate_sets")
+    for c in calls:
+        tol = [k.value for k in c.keywords if k.arg == "cutoff"] + list(c.args[1:2])
+        fn_ = core.enclosing_function(c)
+        env = {st.targets[0].id: st.value for st in ast.walk(fn_) if isinstance(st, ast.Assign) and isinstance(st.targets[0], ast.Name)} if fn_ is not None else {}
+        bad = None
+        for t in tol:
+            t = env.get(t.id, t) if isinstance(t, ast.Name) else t
+            names = {core.src(n) for n in ast.walk(t) if isinstance(n, ast.Attribute)}
+            if names & user:
+                bad = sorted(names & user)[0]
+        rep.instance("R12i", GVF, core.qualname_of(fn_) if fn_ is not None else "GroupVelocity", core.norm(core.src(c), 80), bad is None,
+                     f"the tolerance that groups bands into degenerate sets is {bad}, a value the caller chooses to switch off group velocities of low-frequency modes: with a cutoff of 0.5 THz every chain of bands closer than 0.5 THz is re-diagonalised together and the reported velocities of those (non-degenerate) modes are no longer the gradients of their frequencies", line=c.lineno)
 
 
 def _r12g(rep):
@@ -488,4 +520,6 @@ def selftest():
     b("directional derivative mixes the components", GV, "                ddm_dirs[i] += dq[j] * ddm[j]", "                ddm_dirs[i] += dq[i] * ddm[j]", "R12h", "_get_dD_analytical")
     b("symmetrised velocity not averaged", GV, "        return gv_sym / len(rotations)", "        return gv_sym", "R12h", "_symmetrize_group_velocity")
     b("degenerate set placed one band too far", GV, "            gv[pos : pos + len(deg)] = self._perturb_D(ddms, eigvecs[:, deg])", "            gv[pos + 1 : pos + 1 + len(deg)] = self._perturb_D(ddms, eigvecs[:, deg])", "R12h", "_calculate_group_velocity_at_q")
+    b("degeneracy tolerance taken from the velocity cutoff", GV, "        deg_sets = degenerate_sets(freqs)", "        deg_sets = degenerate_sets(freqs, cutoff=self._cutoff_frequency)", "R12i", "degenerate_sets")
+    n("degeneracy tolerance given as a literal", GV, "        deg_sets = degenerate_sets(freqs)", "        deg_sets = degenerate_sets(freqs, cutoff=1e-4)")
     return V
